@@ -11,7 +11,7 @@
    whose ranges every check run records from the implementation. *)
 From Coq Require Import ZArith List Bool Lia.
 From AV Require Import Lib.Bytes Model.RateCounter Model.Aimd Model.Rbe
-  Proof.RateCounterP Proof.AimdP Proof.RbeP Proof.RbeRembP Proof.RbeEncP.
+  Proof.RateCounterP Proof.AimdP Proof.RbeP Proof.RbeRembP Proof.RbeEncP Proof.RbeMeasP Proof.RbeAnyClockP.
 Import ListNotations.
 Local Open Scope Z_scope.
 
@@ -83,6 +83,30 @@ Theorem C15_estimates_encodable : forall l,
   exists s outs, Rbe.run rbe_init l = (s, outs, 0) /\ Forall encodable_out outs.
 Proof. exact rbe_estimates_encodable. Qed.
 Print Assumptions C15_estimates_encodable.
+
+(* T+  The measurement handed to the rate controller is taken over exactly the
+   packets of the last 1000 ms of the WHOLE history: the reset() calls inside
+   RemoteBitrateEstimator.add never discard a packet that is still inside the
+   window.  After every add() call: _total of the rate counter = (count, sum) of
+   all packets with now - 1000 < t <= now, and latest_estimated_throughput is
+   unchanged or round(8000 * window bytes / active) with 2 <= active <= 1000 ms.
+   (measure_ok is False as soon as a call raises.) *)
+Theorem C15_measurement_exact : forall l,
+  nondecreasing (map a_time l) -> measure_ok rbe_init [] l.
+Proof. exact rbe_measure_exact. Qed.
+Print Assumptions C15_measurement_exact.
+
+(* T+  Arrival times come from the wall clock, which can step backwards or jump:
+   even then nothing raises -- no hypothesis on the history at all (any clock,
+   any sizes including negative, any verdicts, any float inputs). *)
+Theorem C15_never_raises_any_clock : forall l, exists s outs, Rbe.run rbe_init l = (s, outs, 0).
+Proof. exact rbe_never_raises_any_clock. Qed.
+Print Assumptions C15_never_raises_any_clock.
+
+Theorem C15_counter_never_raises_any_clock : forall w sc ops,
+  0 < w -> exists s outs, RateCounter.run (init w sc) ops = (s, outs, 0).
+Proof. exact counter_never_raises. Qed.
+Print Assumptions C15_counter_never_raises_any_clock.
 
 (* ---- non-vacuity ------------------------------------------------------------- *)
 (* A concrete history satisfying the hypotheses of C15_bounds in which estimates
